@@ -128,9 +128,20 @@ def gen_program(tape, phase, special):
             break
         chosen.append(src[tape.draw(len(src), 'pool.pick')])
     nproc = 1 + tape.draw(2, 'nproc')
-    focus = tape.draw(6, 'focus')        # 4: log-heavy program; 3/5: everybody works on one key
+    focus = tape.draw(8, 'focus')        # 4: log-heavy; 3/5: one hot key; 6: dataset churn; 7: fresh bare database
     if focus == 5:
-        focus = 3 if tape.draw(2, 'focus.churn') == 0 else 6
+        focus = 3
+    if focus == 7:
+        # first use of a fresh, bare database by several threads and processes, each operation
+        # through a database handle of its own
+        threads = []
+        for p in range(2):
+            for t in range(2 if p == 0 else 1 + tape.draw(2, 'nthr')):
+                ops = [{'kind': 'db2_store' if (j == 0 or tape.draw(3, 'db2.kind')) else 'db2_retrieve',
+                        'model': chosen[tape.draw(len(chosen), 'op.model')]}
+                       for j in range(1 + tape.draw(2, 'nops'))]
+                threads.append({'pid': p + 1, 'name': f'p{p + 1}.t{t + 1}', 'ops': ops})
+        return {'models': chosen, 'threads': threads, 'nproc': 2, 'focus': 7, 'prestore': False}
     if focus == 6:
         # dataset churn: two processes take turns storing models that each bring a NEW dataset
         # (whatever a process remembers about the dataset directory goes stale in between)
@@ -428,7 +439,7 @@ def run_one(cfg, tape, want_trace=False):
     return res
 
 
-MUTATING = base.TXN_KINDS + ('annotate', 'log')
+MUTATING = base.TXN_KINDS + ('annotate', 'log', 'db2_store')
 
 
 def _justify_error(r, recs, failed_ops, simos, V, stats):
@@ -448,7 +459,7 @@ def _justify_error(r, recs, failed_ops, simos, V, stats):
         if any(f.get('model') is not None and POOL[f['model']]['key'] == key for f in failed_ops) or any(
                 x is not r and x['status'] in ('error', 'killed') and x['inv'] < r['ret'] and
                 x['op'].get('model') is not None and POOL[x['op']['model']]['key'] == key and
-                x['op']['kind'] in base.TXN_KINDS for x in recs):
+                x['op']['kind'] in base.TXN_KINDS + ('db2_store',) for x in recs):
             return
     if isinstance(ex, FileExistsError) and op['kind'] in base.BINDERS:
         nm = base.store_name(op)
@@ -541,6 +552,30 @@ def _check_history(hist, ref, failed_ops, V, stats, simos, k):
                 else:
                     V.viol(f'committed-unretrievable/{type(r["exc"]).__name__}',
                            f'{r["vt"]}: retrieve of committed {e["name"]} raised {r["exc"]!r}')
+    # reads of the bare database: whatever is visible is complete
+    for r in recs:
+        op = r['op']
+        if op['kind'] != 'db2_retrieve':
+            continue
+        e = POOL[op['model']]
+        stores = [x for x in recs if x['op']['kind'] == 'db2_store' and x['op']['model'] is not None and
+                  POOL[x['op']['model']]['key'] == e['key']]
+        if r['status'] == 'ok':
+            acc = {base.op_results_json({'kind': 'store', 'model': x['op']['model']})
+                   for x in stores if x['inv'] < r['ret']} | set(ref.db2.get(e['key'], set()))
+            prob = base.content_problem(r['out'][1], e['key'], acc or {None})
+            if prob is not None or not acc:
+                V.viol('partial-or-wrong-entry-visible',
+                       f'{r["vt"]}: concurrent read of {e["name"]} from the bare database succeeded but '
+                       f'{prob or "nobody had started storing it"}')
+        elif r['status'] == 'error' and (e['key'] in ref.db2 or any(
+                x['status'] == 'ok' and x['ret'] < r['inv'] for x in stores)):
+            bad = any(x['status'] in ('error', 'killed') for x in stores)
+            ex = r['exc']
+            if not (isinstance(ex, base._P['Pending']) and bad) and not r.get('hit') and not (
+                    isinstance(ex, OSError) and any(pe[2] == ex.errno for pe in simos.produced_errors)):
+                V.viol(f'committed-unretrievable/{type(ex).__name__}',
+                       f'{r["vt"]}: read of {e["name"]}, committed to the bare database, raised {ex!r}')
     # concurrent retrieve_log: every row was logged by somebody, verbatim, at most once
     interrupted_logs = any(x['op']['kind'] == 'log' and x['status'] in ('error', 'killed') for x in recs) \
         or any(f['kind'] == 'log' for f in failed_ops)
